@@ -460,12 +460,35 @@ fn handler_level(r: &mut Report, cx: &Ctx, case: u64) {
     c.blacklist.list = vec![listed];
     let state = Arc::new(AppState::from(c));
     let lb = EqMutex::new(LoadBalancer { targets: vec![cx.srv.addr.to_string()], mode: LoadBalancerMode::RoundRobin, index: 0, lcg: Lcg::new() });
-    let (route, uri, want_target): (&str, String, String) = match case % 4 {
-        0 => ("/api/*", "/api/users/7".into(), "/users/7".into()),
-        1 => ("/*", "/plain".into(), "/plain".into()),
-        2 => ("/app*", "/app".into(), "/".into()),
-        _ => ("/x/y/*", "/x/y/".into(), "/".into()),
+    let (route, uri, want_target): (String, String, String) = match case {
+        0 => ("/api/*".into(), "/api/users/7".into(), "/users/7".into()),
+        1 => ("/*".into(), "/plain".into(), "/plain".into()),
+        2 => ("/app*".into(), "/app".into(), "/".into()),
+        3 => ("/x/y/*".into(), "/x/y/".into(), "/".into()),
+        _ => {
+            // generated: the literal prefix of the route is removed exactly once, whatever follows it - including
+            // further copies of the prefix itself - reaches the upstream (with a leading slash)
+            let prefix: &str = *rng.pick(&["/api/", "/", "/app", "/x/y/", "/v1", "/caf\u{e9}/", "/a"]);
+            let bare = prefix.trim_start_matches('/');
+            let mut rest = String::new();
+            for _ in 0..rng.urange(0, 4) {
+                match rng.below(6) {
+                    0 => rest.push_str(prefix),
+                    1 => rest.push_str(bare),
+                    2 => rest.push('/'),
+                    3 => rest.push_str("users/7"),
+                    4 => rest.push_str(&prefix.repeat(2)),
+                    _ => rest.push_str(*rng.pick(&["x", "index.html", "v1", "app", "api"])),
+                }
+            }
+            let want = if rest.starts_with('/') { rest.clone() } else { format!("/{}", rest) };
+            (format!("{}*", prefix), format!("{}{}", prefix, rest), want)
+        }
     };
+    let route: &str = &route;
+    if case >= 4 && uri[route.len() - 1..].contains(&route[..route.len() - 1]) {
+        r.count("prefix_repeated_in_remainder", 1);
+    }
     let blacklisted = case % 5 == 4;
     let mut reqm = gen_request(&mut rng, &GenOpts { max_fields: 5, max_body: 40, allow_xff: false });
     reqm.path = uri.clone();
